@@ -611,6 +611,25 @@ impl Gen {
                 return Op::Push(ml);
             }
         }
+        if self.sw.faults_on && info.in_check && self.rng.chance(30) {
+            // in check nearly every pseudo-legal move is illegal; the SAN routes apply what they
+            // resolve without re-testing the king, so this is where a wrong evasion shortcut shows
+            let exposing: Vec<RMove> = info
+                .pseudo
+                .iter()
+                .copied()
+                .filter(|m| !info.legal.contains(m) && piece_of(m.cell) != rm::K)
+                .collect();
+            if let Some(m) = self.rng.pick(&exposing).copied() {
+                let variant = self.rng.next_u64() as u32;
+                let data = san_data_for(&info.pos, &m, variant | 1);
+                return Op::Push(if self.rng.chance(50) {
+                    MoveLike::SanMove { data, check: 0 }
+                } else {
+                    MoveLike::SanStr(render_san(&data, 0, variant >> 8))
+                });
+            }
+        }
         let want_fault = self.sw.faults_on
             && (self.rng.chance(self.sw.fault_pct) || (self.hot && self.rng.chance(self.sw.after_special)));
         if want_fault || info.legal.is_empty() {
